@@ -22,6 +22,39 @@ const base = int64(1500000000) * 1e9 // 2017-07-14, ns
 
 func ts(ns int64) time.Time { return time.Unix(0, ns).UTC() }
 
+// The same instant can be carried by different time.Time values: another Location, or a value
+// derived from time.Now() that carries a monotonic clock reading.  The property is about
+// instants, so behaviour must not depend on the representation; the wire format (UnixNano) and
+// the model see the instant only.
+var reprNames = []string{"UTC", "FixedZone+01:00", "FixedZone-07:30", "Local", "monotonic"}
+var zoneEast = time.FixedZone("east", 3600)
+var zoneWest = time.FixedZone("west", -7*3600-1800)
+var processStart = time.Now() // has a monotonic reading
+
+func tsRepr(ns int64, mode int) time.Time {
+	u := time.Unix(0, ns)
+	switch mode % len(reprNames) {
+	case 1:
+		return u.In(zoneEast)
+	case 2:
+		return u.In(zoneWest)
+	case 3:
+		return u.In(time.Local)
+	case 4:
+		return processStart.Add(u.Sub(processStart)) // same instant, keeps the monotonic reading
+	}
+	return u.UTC()
+}
+
+// tq renders the query time of a case: the representation rotates deterministically
+var tqCounter int
+
+func tq(ns int64) (time.Time, string) {
+	tqCounter++
+	m := tqCounter % len(reprNames)
+	return tsRepr(ns, m), reprNames[m]
+}
+
 var roles = []string{"outer", "inner", "", "other"}
 var types = []osm.Type{osm.TypeNode, osm.TypeWay, osm.TypeRelation}
 
@@ -75,6 +108,7 @@ func encPoints(c *wire.Case, ls orb.LineString) {
 
 type dUpd struct {
 	Index, Version int
+	Repr           string `json:",omitempty"`
 	TS             int64
 	CS             int64
 	Lat, Lon       int64
@@ -99,7 +133,14 @@ type dMem struct {
 func descUpdates(us osm.Updates) []dUpd {
 	r := make([]dUpd, 0, len(us))
 	for _, u := range us {
-		r = append(r, dUpd{u.Index, u.Version, u.Timestamp.UnixNano() - base, int64(u.ChangesetID), int64(u.Lat), int64(u.Lon), u.Reverse})
+		repr := ""
+		if u.Timestamp.Location() != time.UTC {
+			repr = u.Timestamp.Location().String()
+		}
+		if u.Timestamp != u.Timestamp.Round(0) {
+			repr = "monotonic"
+		}
+		r = append(r, dUpd{u.Index, u.Version, repr, u.Timestamp.UnixNano() - base, int64(u.ChangesetID), int64(u.Lat), int64(u.Lon), u.Reverse})
 	}
 	return r
 }
@@ -201,24 +242,25 @@ func (o obs) desc(rel bool) map[string]interface{} {
 func applyCase(rel bool, t int64, ns osm.WayNodes, ms osm.Members, us osm.Updates, mut func(*obs)) *wire.Case {
 	c := &wire.Case{}
 	var o obs
+	tv, tname := tq(t)
 	if rel {
 		c.Class = "apply-relation"
 		c.Int(2).Int(t)
 		encMembers(c, ms)
 		encUpdates(c, us)
-		o = applyRel(cloneRel(ms, us), ts(t))
+		o = applyRel(cloneRel(ms, us), tv)
 	} else {
 		c.Class = "apply-way"
 		c.Int(1).Int(t)
 		encNodes(c, ns)
 		encUpdates(c, us)
-		o = applyWay(cloneWay(ns, us), ts(t))
+		o = applyWay(cloneWay(ns, us), tv)
 	}
 	if mut != nil {
 		mut(&o)
 	}
 	o.enc(c, rel)
-	d := map[string]interface{}{"op": "ApplyUpdatesUpTo", "t": t - base, "updates": descUpdates(us), "observed": o.desc(rel), "note": "timestamps are ns relative to 2017-07-14T02:40:00Z"}
+	d := map[string]interface{}{"op": "ApplyUpdatesUpTo", "t": t - base, "t_representation": tname, "updates": descUpdates(us), "observed": o.desc(rel), "note": "timestamps are ns relative to 2017-07-14T02:40:00Z"}
 	if rel {
 		d["members"] = descMembers(ms)
 	} else {
@@ -286,31 +328,33 @@ func composeCase(rel bool, t1, t2 int64, ns osm.WayNodes, ms osm.Members, us osm
 	c := &wire.Case{Class: "compose-way"}
 	c.Int(3)
 	var a1, a2, b obs
+	tv1, n1 := tq(t1)
+	tv2, n2 := tq(t2)
 	if rel {
 		c.Class = "compose-relation"
 		c.Int(1).Int(t1).Int(t2)
 		encMembers(c, ms)
 		encUpdates(c, us)
 		r := cloneRel(ms, us)
-		a1 = applyRel(r, ts(t1))
+		a1 = applyRel(r, tv1)
 		a1.Members = append(osm.Members(nil), a1.Members...)
 		a2 = obs{Status: 3}
 		if a1.Status == 0 {
-			a2 = applyRel(r, ts(t2))
+			a2 = applyRel(r, tv2)
 		}
-		b = applyRel(cloneRel(ms, us), ts(t2))
+		b = applyRel(cloneRel(ms, us), tv2)
 	} else {
 		c.Int(0).Int(t1).Int(t2)
 		encNodes(c, ns)
 		encUpdates(c, us)
 		w := cloneWay(ns, us)
-		a1 = applyWay(w, ts(t1))
+		a1 = applyWay(w, tv1)
 		a1.Nodes = append(osm.WayNodes(nil), a1.Nodes...)
 		a2 = obs{Status: 3}
 		if a1.Status == 0 {
-			a2 = applyWay(w, ts(t2))
+			a2 = applyWay(w, tv2)
 		}
-		b = applyWay(cloneWay(ns, us), ts(t2))
+		b = applyWay(cloneWay(ns, us), tv2)
 	}
 	if mut != nil {
 		mut(&b)
@@ -321,7 +365,7 @@ func composeCase(rel bool, t1, t2 int64, ns osm.WayNodes, ms osm.Members, us osm
 	if mut == nil && perIndexSorted(us) && t1 <= t2 && a1.Status == 0 && !sameObs(a2, b, rel) {
 		c.OracleFail = "apply up to t1 then t2 differs from applying up to t2 directly"
 	}
-	d := map[string]interface{}{"op": "ApplyUpdatesUpTo(t1) then (t2) versus (t2) on a copy", "t1": t1 - base, "t2": t2 - base,
+	d := map[string]interface{}{"op": "ApplyUpdatesUpTo(t1) then (t2) versus (t2) on a copy", "t1": t1 - base, "t2": t2 - base, "t_representations": []string{n1, n2},
 		"updates": descUpdates(us), "per_index_time_sorted": perIndexSorted(us),
 		"after_t1": a1.desc(rel), "then_t2": a2.desc(rel), "direct_t2": b.desc(rel)}
 	if rel {
@@ -369,12 +413,13 @@ func lsatCase(t int64, ns osm.WayNodes, us osm.Updates, mut func(*orb.LineString
 	encNodes(c, ns)
 	encUpdates(c, us)
 	w := cloneWay(ns, us)
-	at, panicked := lineStringAt(w, ts(t))
+	tv, tname := tq(t)
+	at, panicked := lineStringAt(w, tv)
 	at = append(orb.LineString(nil), at...)
 	// the query must not modify the way
 	unchanged := sameObs(obs{Nodes: w.Nodes, Updates: w.Updates}, obs{Nodes: ns, Updates: us}, false)
 	cp := cloneWay(ns, us)
-	o := applyWay(cp, ts(t))
+	o := applyWay(cp, tv)
 	ls := cp.LineString()
 	if mut != nil {
 		mut(&at)
@@ -397,7 +442,7 @@ func lsatCase(t int64, ns osm.WayNodes, us osm.Updates, mut func(*orb.LineString
 		c.OracleFail = "LineStringAt modified the way"
 	}
 	c.Trivial = !hyp || len(us) == 0
-	c.Desc = map[string]interface{}{"op": "LineStringAt(t) versus ApplyUpdatesUpTo(t)+LineString() on a copy", "t": t - base,
+	c.Desc = map[string]interface{}{"op": "LineStringAt(t) versus ApplyUpdatesUpTo(t)+LineString() on a copy", "t": t - base, "t_representation": tname,
 		"nodes": descNodes(ns), "updates": descUpdates(us), "hypotheses_hold": hyp,
 		"LineStringAt": descPoints(at), "LineStringAt_panicked": panicked, "apply_status": o.Status, "applied_LineString": descPoints(ls)}
 	return c
@@ -409,12 +454,13 @@ func uptoCase(t int64, us osm.Updates, mut func(*osm.Updates)) *wire.Case {
 	c.Int(5).Int(t)
 	encUpdates(c, us)
 	in := cloneUpdates(us)
-	out := in.UpTo(ts(t))
+	tv, tname := tq(t)
+	out := in.UpTo(tv)
 	if mut != nil {
 		mut(&out)
 	}
 	encUpdates(c, out)
-	c.Desc = map[string]interface{}{"op": "Updates.UpTo", "t": t - base, "updates": descUpdates(us), "observed": descUpdates(out)}
+	c.Desc = map[string]interface{}{"op": "Updates.UpTo", "t": t - base, "t_representation": tname, "updates": descUpdates(us), "observed": descUpdates(out)}
 	c.Trivial = len(us) == 0
 	return c
 }
@@ -472,7 +518,8 @@ func groupCase(at int64, ms osm.Members, ws []gway, mut func(o, i []osmgeojson.V
 		ways[x.ID] = x
 		dw = append(dw, map[string]interface{}{"id": w.id, "nodes": descNodes(w.ns), "updates": descUpdates(w.us)})
 	}
-	outer, inner, tainted, panicked := group(append(osm.Members(nil), ms...), ways, ts(at))
+	atv, atname := tq(at)
+	outer, inner, tainted, panicked := group(append(osm.Members(nil), ms...), ways, atv)
 	if mut != nil {
 		mut(outer, inner)
 	}
@@ -487,7 +534,7 @@ func groupCase(at int64, ms osm.Members, ws []gway, mut func(o, i []osmgeojson.V
 		}
 	}
 	c.Bool(tainted)
-	c.Desc = map[string]interface{}{"op": "mputil.Group", "at": at - base, "members": descMembers(ms), "ways": dw,
+	c.Desc = map[string]interface{}{"op": "mputil.Group", "at": at - base, "at_representation": atname, "members": descMembers(ms), "ways": dw,
 		"outer": dsegs[0], "inner": dsegs[1], "tainted": tainted, "panicked": panicked}
 	c.Trivial = len(outer)+len(inner) == 0
 	return c
@@ -595,7 +642,12 @@ func (g *gen) updates(n, m int, pool []int64, order int, annotatedOnly bool, oob
 		} else {
 			oob = 1
 		}
-		u := osm.Update{Index: idx, Version: g.rng.Intn(6), Timestamp: ts(pool[g.rng.Intn(len(pool))]),
+		stamp := ts(pool[g.rng.Intn(len(pool))])
+		if g.rng.Intn(2) == 0 {
+			stamp = tsRepr(stamp.UnixNano(), 1+g.rng.Intn(4))
+			g.w.Count("stamp:non-UTC-representation")
+		}
+		u := osm.Update{Index: idx, Version: g.rng.Intn(6), Timestamp: stamp,
 			ChangesetID: osm.ChangesetID(g.rng.Intn(50)), Lat: g.coord(), Lon: g.coord(), Reverse: g.rng.Intn(3) == 0}
 		if annotatedOnly && u.Version == 0 && u.Lat == 0 && u.Lon == 0 {
 			u.Version = 1 + g.rng.Intn(5)
@@ -659,7 +711,7 @@ func main() {
 	rng := wire.Rng(a.Seed)
 	w := wire.NewWriter("C15", a.Seed, a.Tier)
 	g := &gen{rng: rng, w: w}
-	w.Rule = "ways/relations of 0-8 children with 0-30 updates drawn over a small pool of timestamps (equal stamps, 1 ns neighbours), stored index-sorted / time-sorted / shuffled, indices beyond the list (12%) and negative (3%), t from {a stamp, stamp+-1ns, before all, after all}; compose cases use t1<=t2 (and some t1>t2); geometry cases are mostly fully annotated (hypotheses hold). distinct = distinct token streams; trivial = no updates / hypotheses of the agreement theorem not met / <2 elements to sort / no segment."
+	w.Rule = "ways/relations of 0-8 children with 0-30 updates drawn over a small pool of timestamps (equal stamps, 1 ns neighbours), stored index-sorted / time-sorted / shuffled, indices beyond the list (12%) and negative (3%), t from {a stamp, stamp+-1ns, before all, after all}; query times and half of the update stamps are carried by time.Time values in other representations of the same instant (two fixed zones, Local, a monotonic clock reading); compose cases use t1<=t2 (and some t1>t2); geometry cases are mostly fully annotated (hypotheses hold). distinct = distinct token streams; trivial = no updates / hypotheses of the agreement theorem not met / <2 elements to sort / no segment."
 	nApply, nCompose, nLsat, nUpto, nSort, nGroup := 220, 220, 320, 50, 80, 90
 	if a.Tier == "thorough" {
 		nApply, nCompose, nLsat, nUpto, nSort, nGroup = 4000, 4000, 6000, 500, 1000, 1500
@@ -694,6 +746,20 @@ func main() {
 			c = applyCase(true, t, nil, ms, us4, nil)
 			c.Class = "corpus"
 			w.Add(c)
+		}
+	}
+
+	{
+		// inclusive boundary is about instants: t equal to the stamp in each representation
+		ns := osm.WayNodes{{ID: 1, Version: 1, Lat: 1, Lon: 1}, {ID: 2, Version: 1, Lat: 2, Lon: 2}}
+		ms := osm.Members{{Type: osm.TypeWay, Ref: 5, Role: "outer", Version: 1, Orientation: orb.CW}}
+		for m := 0; m < 2*len(reprNames); m++ {
+			us := osm.Updates{{Index: 0, Version: 2, Timestamp: tsRepr(base+100, m/2), Lat: 10, Lon: 10}}
+			for _, c := range []*wire.Case{applyCase(false, base+100, ns, nil, us, nil), applyCase(true, base+100, nil, ms, us, nil),
+				uptoCase(base+100, us, nil), lsatCase(base+100, ns, us, nil)} {
+				c.Class = "corpus"
+				w.Add(c)
+			}
 		}
 	}
 
